@@ -102,8 +102,13 @@ def rows(ctx: Ctx):
     allsigs = []
     for sk in sks:
         for sname, S in suites.items():
-            run("SkToPk", sname, sk, b"", [], lambda: S.SkToPk(sk))
-            for m in (msgs if sk == sks[4] else rng.sample(msgs, 2)):
+            pkb = run("SkToPk", sname, sk, b"", [], lambda: S.SkToPk(sk))
+            extra = []
+            if isinstance(pkb, list) and (sname == "aug" or sk == sks[4]):
+                # messages that begin with (or are) the signer's own public key: the augmentation suite still
+                # prefixes the key, the others sign the bytes as given
+                extra = [bytes(pkb), bytes(pkb) + b"xyz", bytes(pkb) * 2]
+            for m in (msgs if sk == sks[4] else rng.sample(msgs, 2)) + extra:
                 sg = run("Sign", sname, sk, m, [], lambda: S.Sign(sk, m))
                 if isinstance(sg, list):
                     allsigs.append(bytes(sg))
